@@ -267,7 +267,10 @@ def distinct(eng, a, b):
 def is_empty(eng, d):
     ver = eng.store_of(d)
     zero = z3.RealVal(0) if ver.vsort == T.Real else z3.IntVal(0)
-    return SV(z3.And(ver.dom == z3.K(ver.ksort, z3.BoolVal(False)), ver.val == z3.K(ver.ksort, zero)), "bool")
+    cond = z3.And(ver.dom == z3.K(ver.ksort, z3.BoolVal(False)), ver.val == z3.K(ver.ksort, zero))
+    if ver.kind != "empty":
+        FO.assert_same(eng, ver, FO.empty(eng, ver.ksort, ver.vsort), cond)     # fold congruence with the empty dict
+    return SV(cond, "bool")
 
 
 @spec
